@@ -538,7 +538,7 @@ func (c12) execDemux(f []string) (string, []Fail) {
 		if st == "sheet-error" {
 			stat("demux.sheet-error")
 		}
-		caseOverride = "demux " + c.line()[6:] + " hits" + strings.Repeat(" 0 0 0 0", len(c.markers))
+		caseOverride = c.line() + " hits" + strings.Repeat(" 0 0 0 0", len(c.markers))
 		return st, nil
 	}
 
@@ -585,7 +585,7 @@ func (c12) execDemux(f []string) (string, []Fail) {
 
 	// primer hits of the real matcher, with the calls of ExtractMultiBarcode
 	hits := " hits"
-	nhits := 0
+	nhits := 0 // hits of the four patterns of every marker over the whole read (both strands): every built site gives one
 	hst := guardT(10*time.Second, func() string {
 		seq := obiseq.NewBioSequence(c.id, append([]byte{}, c.seq...), "")
 		aseq, err := obiapat.MakeApatSequence(seq, false)
@@ -599,24 +599,19 @@ func (c12) execDemux(f []string) (string, []Fail) {
 			begin := 0
 			if len(locs) > 0 {
 				begin = locs[0][0] + 1
-				nhits += len(locs)
 			}
-			s, l2 := c12HitList(pcr, aseq, begin)
+			s, _ = c12HitList(pcr, aseq, begin)
 			hits += s
-			if len(locs) > 0 {
-				nhits += len(l2)
-			}
 			s, locs = c12HitList(pr, aseq, 0)
 			hits += s
 			begin = 0
 			if len(locs) > 0 {
 				begin = locs[0][0] + 1
-				nhits += len(locs)
 			}
-			s, l2 = c12HitList(pcf, aseq, begin)
+			s, _ = c12HitList(pcf, aseq, begin)
 			hits += s
-			if len(locs) > 0 {
-				nhits += len(l2)
+			for _, pat := range []obiapat.ApatPattern{pf, pcf, pr, pcr} {
+				nhits += len(pat.AllMatches(aseq, 0, -1))
 			}
 		}
 		return "ok"
@@ -624,7 +619,7 @@ func (c12) execDemux(f []string) (string, []Fail) {
 	if hst != "ok" {
 		hits = " hits" + strings.Repeat(" 0 0 0 0", len(c.markers))
 	}
-	caseOverride = "demux " + c.line()[6:] + hits
+	caseOverride = c.line() + hits
 
 	run := func(seq []byte, viaWorker bool) (recs []c12Rec, res string) {
 		res = guardT(10*time.Second, func() string {
@@ -1030,6 +1025,7 @@ type c12Built struct {
 	text  string
 	exp   *c12Exp // nil: no complete amplicon within budget
 	sites int     // primer sites within budget
+	kinds string  // the sites in read order: F forward primer, c complemented reverse primer (R / C once reverse-complemented)
 }
 
 // one amplicon built from a declared sample
@@ -1097,9 +1093,11 @@ func c12Amplicon(rng *rand.Rand, c *c12Case, mi int, class int) c12Built {
 	okF, okR := !dropF && nf <= fbud, !dropR && nr <= rbud
 	if okF {
 		b.sites++
+		b.kinds += "F"
 	}
 	if okR {
 		b.sites++
+		b.kinds += "c"
 	}
 	if okF && okR {
 		oft, ort := ftag, rtag
@@ -1115,6 +1113,11 @@ func c12Amplicon(rng *rand.Rand, c *c12Case, mi int, class int) c12Built {
 	return b
 }
 
+type c12Site struct {
+	mk   int
+	kind rune
+}
+
 func c12Read(rng *rand.Rand, c *c12Case) {
 	namp := 1
 	switch rng.Intn(10) {
@@ -1128,6 +1131,7 @@ func c12Read(rng *rand.Rand, c *c12Case) {
 	sites := 0
 	expect := true
 	c.exps = nil
+	var allSites []c12Site
 	for a := 0; a < namp; a++ {
 		mi := rng.Intn(len(c.markers))
 		m := c.markers[mi]
@@ -1150,11 +1154,24 @@ func c12Read(rng *rand.Rand, c *c12Case) {
 			expect = false
 		}
 		text := b.text
+		kinds := b.kinds
 		if rng.Intn(2) == 0 {
 			text = c12Rc(text)
 			if b.exp != nil {
 				b.exp.dir = "r"
 			}
+			kinds = map[string]string{"": "", "F": "C", "c": "R", "Fc": "RC"}[b.kinds]
+		}
+		// a lone site followed by the matching complementary lone site of another amplicon of the same marker delimits a
+		// barcode nobody built: no expectation then
+		for _, k := range kinds {
+			if len(allSites) > 0 && !(len(kinds) == 2 && k == rune(kinds[1])) {
+				last := allSites[len(allSites)-1]
+				if last.mk == mi && ((last.kind == 'F' && k == 'c') || (last.kind == 'R' && k == 'C')) {
+					expect = false
+				}
+			}
+			allSites = append(allSites, c12Site{mi, k})
 		}
 		sb.WriteString(text)
 		sites += b.sites
@@ -1208,7 +1225,7 @@ func (c12) Gen(rng *rand.Rand, tier string, emit func(string)) {
 	for _, f := range []string{"o", "c"} {
 		for _, st := range []int{0, 1, 7, 31} {
 			c := &c12Case{format: f, style: st, e: -1, id: "r", markers: []c12Marker{
-				mk(P1, P2, c12Sample{"aacctt", "ggttaa", "s1", "e", ""}, c12Sample{"aaccta", "ggttaa", "s2", "e", ""}, c12Sample{"ccggaa", "ccggaa", "s3", "e", "vx"}),
+				mk(P1, P2, c12Sample{"aacctt", "ggttaa", "s1", "e", ""}, c12Sample{"aaccta", "ggttaa", "s2", "e", ""}, c12Sample{"ccggaa", "ccggaa", "s3", "e", map[string]string{"o": "vx", "c": ""}[f]}),
 				mk(P3, P4, c12Sample{"", "tgca", "s4", "e", ""})}}
 			c.seq = []byte(build("aacctt", "", P1, bc, P2, "", "ggttaa"))
 			c.cls = "c2"
@@ -1228,9 +1245,9 @@ func (c12) Gen(rng *rand.Rand, tier string, emit func(string)) {
 	//    the tag lengths are never used): the tie is returned as "" and "" is looked up as a declared tag
 	{
 		m := mk(P1, P2, c12Sample{"ccgg", "ggtt", "sA", "e", ""}, c12Sample{"ccgt", "ggtt", "sB", "e", ""}, c12Sample{"", "ggtt", "sNOTAG", "e", ""})
-		m.mode, m.fdl, m.rdl, m.fsp, m.rsp = "h", 'a', 'a', 1, 1
+		m.mode, m.fdl, m.rdl, m.fsp, m.rsp = "h", 'a', 'a', 3, 7
 		c := &c12Case{format: "c", style: 0, e: -1, id: "r", markers: []c12Marker{m}, cls: "free"}
-		c.seq = []byte("gtgtgt" + "a" + "ccgc" + "a" + P1 + bc + c12Rc("a"+"ggtt"+"a"+P2) + "gtgtgt")
+		c.seq = []byte("gtgtgt" + "aaa" + "ccgc" + "aaa" + P1 + bc + c12Rc("aaaaaaa"+"ggtt"+"aaaaaaa"+P2) + "gtgtgt")
 		add(c)
 		// the same with fixed-length tags: CheckTagLength reports an error that nobody reads, the tag length is -1
 		m2 := m
@@ -1247,13 +1264,18 @@ func (c12) Gen(rng *rand.Rand, tier string, emit func(string)) {
 	}
 	// 3. two markers sharing the forward primer (reported by CheckPrimerUnicity, ignored): map order decides
 	{
-		c := &c12Case{format: "o", style: 0, e: -1, id: "r", cls: "free", markers: []c12Marker{
+		c := &c12Case{format: "o", style: 0, e: -1, id: "r", cls: "c3", markers: []c12Marker{
 			mk(P1, P2, c12Sample{"aacc", "ggtt", "s1", "e", ""}), mk(P1, P4, c12Sample{"aacc", "ggtt", "s2", "e", ""})}}
 		c.seq = []byte(build("aacc", "", P1, bc, P4, "", "ggtt"))
+		c.exps = []c12Exp{{bc, "f", 1, "s2", "aacc", "ggtt", P1, P4, 0, 0}}
 		add(c)
 		c2 := *c
 		c2.seq = []byte(build("aacc", "", P1, bc, P2, "", "ggtt"))
+		c2.exps = []c12Exp{{bc, "f", 0, "s1", "aacc", "ggtt", P1, P2, 0, 0}}
 		add(&c2)
+		c2b := c2
+		c2b.format = "c"
+		add(&c2b)
 		// two markers whose forward primers differ by one base: both hit at the same position
 		P1b := "ggtcaacaaatcataaagatattgc"
 		c3 := &c12Case{format: "o", style: 0, e: -1, id: "r", cls: "free", markers: []c12Marker{
